@@ -85,11 +85,45 @@ fn through_copies(q: QRCode) -> QRCode {
             return slot;
         }
     }
+    // a slot of the SAME size that held another symbol: other level / mask / mode, every module inverted
+    let mut slot = q.clone();
+    slot.ecl = Some(ecl_of((q.ecl.map(ecl_ix).unwrap_or(0) + 1) % 4));
+    slot.mask = Some(mask_of((q.mask.map(mask_ix).unwrap_or(0) + 3) % 8));
+    slot.mode = Some(mode_of((q.mode.map(mode_ix).unwrap_or(0) + 1) % 3));
+    let n2 = (slot.size * slot.size).min(slot.data.len());
+    for m in slot.data[..n2].iter_mut() {
+        m.0 ^= 1;
+    }
+    slot.clone_from(&q);
+    if !same(&slot, &q) {
+        return slot;
+    }
     q
 }
 
+/// How the input is HANDED to the builder must not matter (`QRBuilder::new` takes `impl Into<Vec<u8>>`): an exact `Vec`,
+/// a `Vec` cut out of a large buffer (capacity far above its length — a truncated read buffer), a `Vec` grown by pushes.
+/// The choice is a function of the content, so a case replays identically.
+pub fn owned_input(input: &[u8]) -> Vec<u8> {
+    let h = input.iter().fold(input.len() as u32, |a, &b| a.wrapping_mul(31).wrapping_add(u32::from(b)));
+    match h % 4 {
+        0 | 1 => input.to_vec(),
+        2 => {
+            let mut v = Vec::with_capacity(16 * 1024 + input.len());
+            v.extend_from_slice(input);
+            v
+        }
+        _ => {
+            let mut v = vec![0u8; 9000.max(input.len() * 2)];
+            v[..input.len()].copy_from_slice(input);
+            v.truncate(input.len());
+            v
+        }
+    }
+}
+
 pub fn build(input: &[u8], o: Opts) -> Outcome {
-    let input = input.to_vec();
+    let input = owned_input(input);
     let r = std::panic::catch_unwind(move || {
         let mut b = QRBuilder::new(input);
         if let Some(e) = o.ecl {
@@ -120,7 +154,7 @@ pub fn build(input: &[u8], o: Opts) -> Outcome {
 /// the same configuration reached on a REUSED builder: the options of `prev` are set first (only those `o` sets too —
 /// a setter cannot be undone) and a build is made and discarded; then the options of `o` are set and the build observed
 pub fn build_after(input: &[u8], prev: Opts, o: Opts) -> Outcome {
-    let input = input.to_vec();
+    let input = owned_input(input);
     let r = std::panic::catch_unwind(move || {
         let mut b = QRBuilder::new(input);
         if let (Some(e), Some(_)) = (prev.ecl, o.ecl) {
